@@ -27,7 +27,8 @@ REQUIRED_ANCHORS = ('ma', 'arma_estimate', 'arma2psd')
 def _x_ok(X, nmin=4):
     try:
         x = np.asarray(X)
-        return x.ndim == 1 and len(x) >= nmin and x.dtype.kind in 'fc' and np.all(np.isfinite(x)) and np.any(x)
+        return x.ndim == 1 and len(x) >= nmin and (x.dtype.kind in 'fc' or (x.dtype.kind == 'i' and x.dtype.itemsize == 8)) \
+            and np.all(np.isfinite(x)) and np.any(x)
     except Exception:
         return False
 
@@ -139,7 +140,7 @@ def setup(c):
     install.contract('spectrum.arma', 'arma_estimate', post_arma_estimate)
 
 
-KINDS = ['noise', 'ar', 'arma', 'tones']
+KINDS = ['noise', 'ar', 'arma', 'tones', 'int']
 CLASSES = ['pyule', 'pburg', 'pcovar', 'pmodcovar', 'parma', 'pma']
 
 
